@@ -176,7 +176,7 @@ class DebugInfo:
                 # and anything between the end of the last child
                 # statement and the end of the block is part of the
                 # "end statement" of the block.
-                last_child = children[-1]
+                last_child = max(children, key=lambda r: r.end_offset)
                 add_node_record(block.end_stmt,
                                 last_child.end_offset,
                                 end_offset)
